@@ -26,7 +26,7 @@ RULE = (
     "GetValue(own unit) returns the stored value for simple, derived and empty quantities. Second configuration: "
     "after the shipped table, a small project database that reuses its symbols with other factors is used in the "
     "same process and all its pairs x categories go through all routes (nothing may be remembered per symbol "
-    "across databases). Non-trivial = u!=v, "
+    "across databases). Targets that have a legacy spelling are also asked for in that spelling (GetValue, CreateCopy, ChangeScalars, Array / FixedArray routes, db.Convert): same numbers, category and type of the source kept; FixedArray.ChangingIndex also with a (value, unit) pair and use_value_unit=False. Non-trivial = u!=v, "
     "conversion not identity, x!=0, container non-empty; distinct key = (route, qt, u, v, category)."
 )
 ASSUMPTIONS = [
@@ -60,6 +60,12 @@ class Checker:
         self.cats = {}
         for c in db.IterCategories():
             self.cats.setdefault(db.GetCategoryQuantityType(c), []).append(c)
+        # current symbol -> its legacy spellings (an independent copy of the documented substitution list)
+        from bv import legacy
+
+        self.legacy_of = {}
+        for l, cur in sorted(legacy.spellings(db).items()):
+            self.legacy_of.setdefault(cur, []).append(l)
 
     def other_db(self):
         """a database other than the one under test (the shipped table for the project database and vice versa),
@@ -222,6 +228,37 @@ class Checker:
 
         R("db.Convert(exponent)", case, exponent_routes)
 
+        # --- the target unit written in a legacy spelling: same numbers, and the source's category is kept (the
+        # spelling is resolved inside the source's category, not through the default category of the unit)
+        def legacy_target_routes():
+            for lv in self.legacy_of.get(v, [])[:2]:
+                ctx.cls("legacy_spelled_target")
+                s = Scalar(xs[0], u, cat)
+                self.cmp("Scalar.GetValue(legacy spelling)", case, s.GetValue(lv), w0, S0)
+                c = s.CreateCopy(unit=lv)
+                self.cmp("Scalar.CreateCopy(unit=legacy spelling)", case, c.GetValue(), w0, S0)
+                self.meta("Scalar.CreateCopy(unit=legacy spelling)", case, c, cat, qt, v)
+                o = Owner()
+                o.a = s
+                ChangeScalars(o, a=(None, lv))
+                self.cmp("ChangeScalars(None,legacy spelling)", case, o.a.GetValue(), w0, S0)
+                self.meta("ChangeScalars(None,legacy spelling)", case, o.a, cat, qt, v)
+                a = Array(list(xs), u, cat)
+                self.cmp("Array.GetValues(legacy spelling)", case, a.GetValues(lv), want, S)
+                ca = a.CreateCopy(unit=lv)
+                self.cmp("Array.CreateCopy(unit=legacy spelling)", case, ca.GetValues(), want, S)
+                self.meta("Array.CreateCopy(unit=legacy spelling)", case, ca, cat, qt, v)
+                fa = FixedArray(len(xs), list(xs), u, cat)
+                r = fa.ChangingIndex(0, (xs[-1], lv))
+                self.cmp("FixedArray.ChangingIndex((value, legacy spelling))", case, list(r.GetValues()), [xs[-1]] + want[1:], [abs(xs[-1])] + S[1:])
+                self.meta("FixedArray.ChangingIndex((value, legacy spelling))", case, r, cat, qt, v)
+                si = fa.IndexAsScalar(0, ObtainQuantity(lv, cat))
+                self.cmp("FixedArray.IndexAsScalar(quantity in legacy spelling)", case, si.GetValue(), w0, S0)
+                self.meta("FixedArray.IndexAsScalar(quantity in legacy spelling)", case, si, cat, qt, v)
+                self.cmp("db.Convert(legacy spelling)", case, [Convert(cat, u, lv, x) for x in xs], want, S)
+
+        R("legacy target", case, legacy_target_routes)
+
         # --- Array routes
         def array_routes():
             for kind in ("list", "tuple", "ndarray"):
@@ -314,6 +351,11 @@ class Checker:
                 back = Convert(qt, v, u, want[0])
                 self.cmp("FixedArray[%s].ChangingIndex(Scalar,use_value_unit=False)[i]" % kind, case, list(r2.GetValues())[:1], [back], [um.conv_scale(v, u, want[0]) + abs(back)])
                 self.meta("FixedArray[%s].ChangingIndex(Scalar,use_value_unit=False)" % kind, case, r2, cat, qt, u)
+                # (value, unit) pair with use_value_unit=False: the array keeps u, the pair's amount is converted v->u
+                r2p = fa.ChangingIndex(0, (want[0], v), use_value_unit=False)
+                self.cmp("FixedArray[%s].ChangingIndex(tuple,use_value_unit=False)" % kind, case, list(r2p.GetValues())[1:], xs[1:], [abs(x) for x in xs[1:]])
+                self.cmp("FixedArray[%s].ChangingIndex(tuple,use_value_unit=False)[i]" % kind, case, list(r2p.GetValues())[:1], [back], [um.conv_scale(v, u, want[0]) + abs(back)])
+                self.meta("FixedArray[%s].ChangingIndex(tuple,use_value_unit=False)" % kind, case, r2p, cat, qt, u)
                 r3 = fa.ChangingIndex(0, (y, v))
                 self.cmp("FixedArray[%s].ChangingIndex(tuple)" % kind, case, list(r3.GetValues())[1:], want[1:], S[1:])
                 self.cmp("FixedArray[%s].ChangingIndex(tuple)[i]" % kind, case, list(r3.GetValues())[:1], [y], [abs(y)])
@@ -563,6 +605,9 @@ def run_shard(spec, ctx):
                         vs = list(enumerate(us))
                     else:
                         vs += [(j, w) for j, w in enumerate(us) if ch.um.offset[w] != 0 and (j, w) not in vs]
+                    # so are targets that have a legacy spelling (a quarter of the sources per draw)
+                    if (iu + offsets[0]) % 4 == 0:
+                        vs += [(j, w) for j, w in enumerate(us) if w in ch.legacy_of and (j, w) not in vs]
                 for iv, v in vs:
                     cat = cats[(iu + iv + cat_rot) % len(cats)]
                     ch.check_pair({"qt": qt, "u": u, "v": v, "cat": cat, "xs": xs, "ints": ints})
